@@ -58,6 +58,15 @@ _Bool nondet__Bool(void);
 #else
 #define VC_MAXOBJ ((size_t)1 << 40)
 #endif
+/* largest element count for int-typed lengths (so that 2n+4 still fits an int) */
+#ifdef WITNESS_MODE
+#ifndef VC_WIT_MAXN
+#define VC_WIT_MAXN 6
+#endif
+#define VC_MAXN VC_WIT_MAXN
+#else
+#define VC_MAXN (INT_MAX / 2 - 8)
+#endif
 #define NEW_OBJ(n) __CPROVER_allocate((n), 0)
 
 /* In witness/replay mode the content of a dynamic object comes from a WIT_ARR so that
